@@ -54,9 +54,9 @@ Proof. right. exists T_IDNA_EMPTY_GLYPHLESS, T_IDNA_EMPTY_LIST. reflexivity. Qed
 (* ---- the witness: one label of 1000 ideographs U+4E00, U+4E14, ... (20 apart) ---- *)
 Fixpoint spread (n : nat) (c step : N) : list N :=
   match n with O => [] | S k => c :: spread k (c + step) step end.
-Definition W_C10_long_U : list N := spread 1000 19968 20.
-Definition W_C10_long : list N := utf8_encode W_C10_long_U.
-Definition W_C10_long_A : list N :=
+Definition W_C10_long_U := Eval vm_compute in spread 1000 19968 20.
+Definition W_C10_long := Eval vm_compute in utf8_encode W_C10_long_U.
+Definition W_C10_long_A :=
   Eval vm_compute in match to_ascii lowad false W_C10_long DENY_EMPTY HAllow DIgnore with Ok (_, r) => r | _ => [] end.
 
 Lemma w_c10_long :
